@@ -142,6 +142,11 @@ def run(db: DB, rep: Report) -> None:
     if n_guarded < 2:
         raise AnalysisError("only %d mode-guarded identifier keys found (floor 2)" % n_guarded)
 
+    # ---- N6: the loop binds <rank>_pos whenever the interval code reads it -------
+    rep.rule("N6", "the position variable is bound whenever the interval code needs it", 1)
+    from sa.rules.c16 import check_need_enumerate
+    check_need_enumerate(db, rep, "N6")
+
     # ---- N3 --------------------------------------------------------------------
     rep.rule("N3", "receiver temporary is named before the next temporary is allocated", 4)
     for f in db.all_functions(["teaal.trans."]):
@@ -252,6 +257,8 @@ def mutants(db: DB):
         M("timestamps read without slip", gr,
           "            if spacetime.get_slip():\n\n                # If this is the first time we are seeing the space stamp",
           "            if True:\n\n                # If this is the first time we are seeing the space stamp", "N2"),
+        M("revert F4 fix", eq, "        return enum_int or (enum_st and enum_metrics)",
+          "        return (enum_int or enum_st) and enum_metrics", ("N6", "N2")),
         M("split_equal allocates before naming the receiver", pt,
           "        curr_tmp = self.trans_utils.curr_tmp()\n        part_call = EMethod(EVar(curr_tmp), \"splitEqual\", args)\n\n        next_tmp = AVar(self.trans_utils.next_tmp())",
           "        next_tmp = AVar(self.trans_utils.next_tmp())\n        curr_tmp = self.trans_utils.curr_tmp()\n        part_call = EMethod(EVar(curr_tmp), \"splitEqual\", args)\n",
